@@ -8,4 +8,5 @@
 //! beyond it is a *model bound* (`vnd::model_bound`): such paths are outside the claim.
 
 pub mod collections;
+pub mod vec;
 pub use collections::CAP;
